@@ -153,3 +153,13 @@ package statsd
 //@   ensures  payload(result, MetricAggregator).histogramLimit == af.histogramLimit && payload(result, MetricAggregator).disabledSubtypes == af.disabledSubtypes
 //@   modifies everything
 //@   preserves statsd.agrFactory
+
+// ReceiveMap merges one batch into the aggregator's map (the batch shares nothing with it).
+//@ func (*MetricAggregator).ReceiveMap
+//@   floats real
+//@   requires a != nil && a.metricMap != nil && mergeable(mm)
+//@   requires wfdCounters(a.metricMap.Counters) && wfdGauges(a.metricMap.Gauges) && wfdTimers(a.metricMap.Timers) && wfdSets(a.metricMap.Sets) && setsOK(a.metricMap)
+//@   requires disjointC(a.metricMap.Counters, mm.Counters) && disjointG(a.metricMap.Gauges, mm.Gauges) && disjointT(a.metricMap.Timers, mm.Timers) && disjointS(a.metricMap.Sets, mm.Sets)
+//@   ensures  wfdCounters(a.metricMap.Counters) && wfdGauges(a.metricMap.Gauges) && wfdTimers(a.metricMap.Timers) && wfdSets(a.metricMap.Sets) && setsOK(a.metricMap)
+//@   ensures  a.metricMapsReceived == wrapu64(old(a.metricMapsReceived) + 1)
+//@   modifies everything
